@@ -105,6 +105,7 @@ TARGETS = [
     ('Freq_is_higher_than', 'qce_circuit.connectivity.intrf_connectivity_surface_code', 'FrequencyGroupIdentifier', 'is_higher_than'),
     ('Freq_is_lower_than', 'qce_circuit.connectivity.intrf_connectivity_surface_code', 'FrequencyGroupIdentifier', 'is_lower_than'),
     ('Conn_on_moving_side', 'qce_circuit.connectivity.connectivity_surface_code', None, 'on_moving_side'),
+    ('Conn_get_requires_parking', 'qce_circuit.connectivity.connectivity_surface_code', None, 'get_requires_parking'),
     ('Conn_get_higher_frequency_qubit_id', 'qce_circuit.connectivity.connectivity_surface_code', None, 'get_higher_frequency_qubit_id'),
     ('Conn_get_lower_frequency_qubit_id', 'qce_circuit.connectivity.connectivity_surface_code', None, 'get_lower_frequency_qubit_id'),
     # --- C18: row order of the drawing
@@ -253,6 +254,10 @@ def expr(e: ast.AST) -> str:
                 and not e.generators[0].is_async:
             g = e.generators[0]
             return f'.compIf ({expr(e.elt)}) {lstr(g.target.id)} ({expr(g.iter)}) ({expr(g.ifs[0])})'
+        if len(e.generators) == 1 and isinstance(e.generators[0].target, ast.Tuple) and not e.generators[0].ifs \
+                and not e.generators[0].is_async and all(isinstance(t, ast.Name) for t in e.generators[0].target.elts):
+            g = e.generators[0]
+            return f'.compT ({expr(e.elt)}) {llist([lstr(t.id) for t in g.target.elts])} ({expr(g.iter)})'
         return unsupported_e(e)
     if isinstance(e, ast.JoinedStr):
         return '.fstr'
